@@ -71,6 +71,9 @@ type c17BodyOut struct {
 	Seen  string `json:"seen"`  // what the serializer was given
 	Body  string `json:"body"`  // body the transport received
 	Err   bool   `json:"err"`
+	// part "defaults" (default serializers): per call the expected and the received request body; was every response decoded into its target?
+	Pairs   []c17Pair `json:"pairs"`
+	Decoded bool      `json:"decoded"`
 }
 
 func c17BodyKinds(w *ndWriter) int {
@@ -80,7 +83,7 @@ func c17BodyKinds(w *ndWriter) int {
 		st := &stubTransport{env: env, body: "RESP"}
 		s := network.NewSimpleHTTPWithClientAndInterceptors(&http.Client{Transport: st})
 		api := network.NewSimpleAPIWithSimpleHTTP("http://stub.invalid", s)
-		o := c17BodyOut{Part: "bodykind", Ctor: ctor, Kind: kind}
+		o := c17BodyOut{Part: "bodykind", Ctor: ctor, Kind: kind, Pairs: []c17Pair{}}
 		api.RequestSerializerForJSON = func(body interface{}) (io.Reader, error) {
 			o.Calls++
 			o.Seen = fmt.Sprintf("%T:%v", body, body)
@@ -311,7 +314,7 @@ func c17Main(args []string) error {
 			return err
 		}
 		defer w.close()
-		fmt.Printf("{\"runs\":%d}\n", c17BodyKinds(w))
+		fmt.Printf("{\"runs\":%d}\n", c17BodyKinds(w)+c17Defaults(w))
 		return nil
 	case "exec":
 		w, err := newNDWriter(flagVal(args, "out", "c17.trace.ndjson"))
